@@ -112,6 +112,12 @@ class Session:
                 arch="x64",
                 what="HttpBeaconClient.run(dry_run=True)",
             )
+        # a session whose two ends are configured with an IV of their own: the client through its decoder's key object
+        # (BeaconKeys carries the IV), the capture is then decoded with that key object handed to iter_recover_http
+        self.iv = bytes(init["iv"]) if init.get("iv") else None
+        if self.iv:
+            self.ts.iv = self.iv
+            self.cl.c2http.beacon_keys = self.cl.c2http.beacon_keys._replace(iv=self.iv)
         self.counter = 5000
         self.caplog = CaptureLogger()
         self.cl.logger = self.caplog
@@ -203,7 +209,7 @@ class Session:
         exp = []
         for cb, data in items:
             self.counter += 1
-            frames += peer.enc_callback(self.counter, cb, data, *self.ts.keys)
+            frames += peer.enc_callback(self.counter, cb, data, *self.ts.keys, self.ts.iv)
             exp.append(("callback", self.counter, cb, data))
         raw = self.rb.callback_request(self.cl.beacon_id, frames, masks=[bytes(m) for m in masks])
         resp = peer.send_raw(self.srv.port, raw)
@@ -248,6 +254,11 @@ class Session:
             "aes_rand": dict(aes_rand=aes_rand),
             "keys": dict(aes_key=aes, hmac_key=hk),
         }
+        rkw = {}
+        if self.iv:
+            # only a key object can say which IV the session uses
+            variants = {"keys": dict(aes_key=aes, hmac_key=hk)}
+            rkw = {"keys": c2.BeaconKeys(aes_key=aes, hmac_key=hk, iv=self.iv)}
         # (1) a persistent decoder per key variant, fed incrementally (the way a capture is processed) ...
         if not hasattr(self, "persistent"):
             self.persistent = {}
@@ -259,7 +270,7 @@ class Session:
             for i in range(self.fed, len(self.messages)):
                 raw, exp = self.messages[i]
                 want = exp[vname]
-                r = lib(lambda: list(dec.iter_recover_http(raw)), allow=(ValueError,), what=f"persistent C2Http[{vname}].iter_recover_http(message {i})")
+                r = lib(lambda: list(dec.iter_recover_http(raw, **rkw)), allow=(ValueError,), what=f"persistent C2Http[{vname}].iter_recover_http(message {i})")
                 if want == "ValueError":
                     check(isinstance(r, Raised), "decode:unrelated_not_rejected", f"[{vname}, persistent] unrelated request {raw[:80]!r} decoded to {r!r}")
                 elif isinstance(r, Raised) or [self.packet_tuple(p) for p in r] != want:
@@ -278,7 +289,7 @@ class Session:
                     continue
 
                 def take(n=len(want)):
-                    it = dec.iter_recover_http(raw)
+                    it = dec.iter_recover_http(raw, **rkw)
                     return [next(it) for _ in range(n)]
 
                 r = lib(take, allow=(ValueError,), what=f"lazy C2Http[{vname}] (message {i})")
@@ -290,7 +301,7 @@ class Session:
             dec = lib(c2.C2Http, self.bconfig, what=f"C2Http({vname})", **kw)
             for i, (raw, exp) in enumerate(self.messages):
                 want = exp[vname]
-                r = lib(lambda: list(dec.iter_recover_http(raw)), allow=(ValueError,), what=f"C2Http[{vname}].iter_recover_http(message {i})")
+                r = lib(lambda: list(dec.iter_recover_http(raw, **rkw)), allow=(ValueError,), what=f"C2Http[{vname}].iter_recover_http(message {i})")
                 if want == "ValueError":
                     check(isinstance(r, Raised), "decode:unrelated_not_rejected", f"[{vname}] unrelated request {raw[:80]!r} decoded to {r!r}")
                     continue
@@ -389,6 +400,7 @@ def finish(sess, case, stats):
             "verbs_%s_%s" % (sess.cfg["verb_get"], sess.cfg["verb_post"]),
             "tasks" if sess.ntasks else "no_tasks",
             "reused_client_object" if sess.init.get("prior_session") else "fresh_client_object",
+            "session_iv_custom" if sess.iv else "session_iv_default",
             "large_packet" if any(len(r) > 60000 for r, _ in sess.messages) else "small_packets",
         ],
     )
@@ -403,6 +415,7 @@ init_strategy = st.fixed_dictionaries(
         "user": st.text(alphabet=S.token_chars + ". ", min_size=1, max_size=15),
         "masks": st.lists(st.binary(min_size=4, max_size=4), min_size=8, max_size=8),
         "prior_session": st.sampled_from([False, False, True]),
+        "iv": st.one_of(st.none(), st.none(), st.none(), st.binary(min_size=16, max_size=16)),
     }
 )
 _big = st.tuples(st.integers(0, 3), st.integers(0, 255)).map(lambda t: b"\x00BIG" + bytes(t))
